@@ -181,6 +181,31 @@ func (b nodeBN) Proposal(_ context.Context, opts *eth2api.ProposalOpts) (*eth2ap
 	return &eth2api.Response[*eth2api.VersionedProposal]{Data: p}, nil
 }
 
+// AggregateAttestation: the aggregate this node's beacon node has seen for the attestation data with that root
+// (which votes it has collected differs from node to node).
+func (b nodeBN) AggregateAttestation(_ context.Context, opts *eth2api.AggregateAttestationOpts) (*eth2api.Response[*eth2spec.VersionedAttestation], error) {
+	for _, variant := range []byte{'a', 'b', 'c'} {
+		ad := attData(uint64(opts.Slot), variant)
+		if r, err := ad.HashTreeRoot(); err == nil && r == opts.AttestationDataRoot {
+			return &eth2api.Response[*eth2spec.VersionedAttestation]{Data: aggregateOf(ad, b.variant)}, nil
+		}
+	}
+	return nil, fmt.Errorf("aggregate attestation not found by root")
+}
+
+// aggregateOf is an aggregate over the data as the beacon node of a node with that variant has collected it.
+func aggregateOf(ad eth2p0.AttestationData, seenBy byte) *eth2spec.VersionedAttestation {
+	cb := bitfield.NewBitvector64()
+	cb.SetBitAt(commIdx, true)
+	ab := bitfield.NewBitlist(8)
+	for k := uint64(0); k <= uint64(seenBy-'a')+1; k++ {
+		ab.SetBitAt(k, true)
+	}
+	var sig eth2p0.BLSSignature
+	sig[0], sig[1] = 0xa9, seenBy
+	return &eth2spec.VersionedAttestation{Version: eth2spec.DataVersionElectra, Electra: &electra.Attestation{AggregationBits: ab, Data: &ad, CommitteeBits: cb, Signature: sig}}
+}
+
 // tapFetch records every candidate set a node's fetcher hands to its subscribers (consensus proposes it).
 type tapFetch struct {
 	core.Fetcher
@@ -335,6 +360,11 @@ func runCase(rt *rapid.T, maxN int) {
 	propDuty := core.NewProposerDuty(dutySlot)
 	propDefs := core.DutyDefinitionSet{proposerVal.corePub: core.NewProposerDefinition(&eth2v1.ProposerDuty{PubKey: eth2p0.BLSPubKey(proposerVal.group), Slot: eth2p0.Slot(dutySlot), ValidatorIndex: proposerVal.index})}
 	proposed := map[string]bool{}
+	// ... and the aggregation flow: selection proofs (partial) -> aggregated selections -> aggregate fetched for the
+	// decided attestation data -> consensus -> signed aggregate-and-proof
+	withAggregator := realFetch && rapid.IntRange(0, 2).Draw(rt, "withAggregator") == 0
+	prepAggDuty := core.NewPrepareAggregatorDuty(dutySlot)
+	aggDuty := core.NewAggregatorDuty(dutySlot)
 	attDuty := core.NewAttesterDuty(dutySlot)
 	syncDuty := core.NewSyncMessageDuty(dutySlot)
 	exitDuty := core.NewVoluntaryExit(0)
@@ -380,7 +410,7 @@ func runCase(rt *rapid.T, maxN int) {
 		must(err)
 		asdb := aggsigdb.NewMemDB(core.NewDeadliner(ctx, "aggsigdb", deadlineFn))
 		goFn(func() { asdb.Run(ctx) })
-		nd.sched = &stubSched{defs: map[core.Duty]core.DutyDefinitionSet{attDuty: attDefs, propDuty: propDefs}}
+		nd.sched = &stubSched{defs: map[core.Duty]core.DutyDefinitionSet{attDuty: attDefs, propDuty: propDefs, aggDuty: attDefs, prepAggDuty: attDefs}}
 		var fetch core.Fetcher = &stubFetch{candidate: func(d core.Duty, defs core.DutyDefinitionSet) core.UnsignedDataSet {
 			if d.Type != core.DutyAttester {
 				return nil
@@ -500,6 +530,51 @@ func runCase(rt *rapid.T, maxN int) {
 					_ = nd.vapi.SubmitAttestations(nd.ctx, &eth2api.SubmitAttestationsOpts{Attestations: []*eth2spec.VersionedAttestation{att}})
 				})
 			}
+		case core.DutyAggregator:
+			for _, sub := range nd.sched.subs {
+				goFn(func() { _ = sub(nd.ctx, d, attDefs) })
+			}
+			// the validator client: selection proofs (partial) for all its validators, wait for the aggregated
+			// ones, ask for the aggregate of the decided attestation data, sign aggregate-and-proof, submit
+			goFn(func() {
+				var sels []*eth2v1.BeaconCommitteeSelection
+				for _, v := range vals {
+					sel := &eth2v1.BeaconCommitteeSelection{ValidatorIndex: v.index, Slot: eth2p0.Slot(d.Slot)}
+					s, err := specsign.Sign(bn, v.shares[i+1], core.NewBeaconCommitteeSelection(sel))
+					must(err)
+					sel.SelectionProof = s.Signature().ToETH2()
+					sels = append(sels, sel)
+				}
+				selResp, err := nd.vapi.BeaconCommitteeSelections(nd.ctx, &eth2api.BeaconCommitteeSelectionsOpts{Selections: sels})
+				if err != nil {
+					return
+				}
+				adResp, err := nd.vapi.AttestationData(nd.ctx, &eth2api.AttestationDataOpts{Slot: eth2p0.Slot(d.Slot), CommitteeIndex: commIdx})
+				if err != nil {
+					return
+				}
+				root, err := adResp.Data.HashTreeRoot()
+				must(err)
+				aggResp, err := nd.vapi.AggregateAttestation(nd.ctx, &eth2api.AggregateAttestationOpts{Slot: eth2p0.Slot(d.Slot), AttestationDataRoot: root, CommitteeIndex: commIdx})
+				if err != nil {
+					return
+				}
+				var list []*eth2spec.VersionedSignedAggregateAndProof
+				for _, sel := range selResp.Data {
+					var v *validator
+					for _, x := range vals {
+						if x.index == sel.ValidatorIndex {
+							v = x
+						}
+					}
+					ap := &eth2spec.VersionedSignedAggregateAndProof{Version: eth2spec.DataVersionElectra, Electra: &electra.SignedAggregateAndProof{Message: &electra.AggregateAndProof{AggregatorIndex: v.index, Aggregate: aggResp.Data.Electra, SelectionProof: sel.SelectionProof}}}
+					s, err := specsign.Sign(bn, v.shares[i+1], core.NewVersionedSignedAggregateAndProof(ap))
+					must(err)
+					ap.Electra.Signature = s.Signature().ToETH2()
+					list = append(list, ap)
+				}
+				_ = nd.vapi.SubmitAggregateAttestations(nd.ctx, &eth2api.SubmitAggregateAttestationsOpts{SignedAggregateAndProofs: list})
+			})
 		case core.DutyProposer:
 			for _, sub := range nd.sched.subs {
 				goFn(func() { _ = sub(nd.ctx, d, propDefs) })
@@ -584,6 +659,9 @@ func runCase(rt *rapid.T, maxN int) {
 	if withProposer {
 		duties = append(duties, propDuty)
 	}
+	if withAggregator {
+		duties = append(duties, aggDuty)
+	}
 	equivocations, crashes, lateStarts, otherFork := 0, 0, 0, 0
 
 	deliver := func(fr *memnet.Frame) {
@@ -662,6 +740,9 @@ func runCase(rt *rapid.T, maxN int) {
 				if d.Type == core.DutyProposer && rapid.IntRange(0, 2).Draw(rt, "byzRandao") == 0 {
 					sendDuty = core.NewRandaoDuty(d.Slot) // a partial randao reveal for another epoch
 				}
+				if d.Type == core.DutyAggregator && rapid.IntRange(0, 2).Draw(rt, "byzSelection") == 0 {
+					sendDuty = prepAggDuty // a partial selection proof for another slot
+				}
 				for _, v := range vals {
 					if d.Type == core.DutyProposer && v != proposerVal {
 						continue
@@ -670,6 +751,11 @@ func runCase(rt *rapid.T, maxN int) {
 					switch sendDuty.Type {
 					case core.DutyRandao:
 						data = core.NewSignedRandao(eth2p0.Epoch(variant-'a'), eth2p0.BLSSignature{})
+					case core.DutyPrepareAggregator:
+						data = core.NewBeaconCommitteeSelection(&eth2v1.BeaconCommitteeSelection{ValidatorIndex: v.index, Slot: eth2p0.Slot(d.Slot + uint64(variant-'a'))})
+					case core.DutyAggregator:
+						// its own aggregate over a drawn variant of the data, with a selection proof it made up
+						data = core.NewVersionedSignedAggregateAndProof(&eth2spec.VersionedSignedAggregateAndProof{Version: eth2spec.DataVersionElectra, Electra: &electra.SignedAggregateAndProof{Message: &electra.AggregateAndProof{AggregatorIndex: v.index, Aggregate: aggregateOf(attData(d.Slot, variant), variant).Electra}}})
 					case core.DutyProposer:
 						p := genBlock(variantSeed[variant])
 						setHeader(p, eth2p0.Slot(d.Slot), v.index, eth2p0.BLSSignature{}, variant)
@@ -787,7 +873,8 @@ func runCase(rt *rapid.T, maxN int) {
 	vstat.Case(fmt.Sprintf("%d|%s|%v|%d|%v|%s", n, string(nodeVariant), byzList, crashes, rs, strings.Join(trace, ",")), nontrivial,
 		cls("published", nPub > 0), cls("decided_at_>=2_nodes", nDecided >= 2), cls("variants>=2", len(distinctVariants) >= 2), cls("crash", crashes > 0), cls("late_start", lateStarts > 0), cls("equivocating_share", equivocations > 0), cls("byz_sync_message_claims_slot_of_another_fork", otherFork > 0),
 		cls("attester_published", dutiesPublished[core.DutyAttester]), cls("sync_published", dutiesPublished[core.DutySyncMessage]), cls("exit_published", dutiesPublished[core.DutyExit]),
-		cls("production_fetcher", realFetch), cls("proposer_flow", withProposer), cls("randao_aggregated", dutiesPublished[core.DutyRandao]), cls("block_published", dutiesPublished[core.DutyProposer]), fmt.Sprintf("n=%d", n))
+		cls("production_fetcher", realFetch), cls("proposer_flow", withProposer), cls("randao_aggregated", dutiesPublished[core.DutyRandao]), cls("block_published", dutiesPublished[core.DutyProposer]),
+		cls("aggregator_flow", withAggregator), cls("selection_aggregated", dutiesPublished[core.DutyPrepareAggregator]), cls("aggregate_and_proof_published", dutiesPublished[core.DutyAggregator]), fmt.Sprintf("n=%d", n))
 	if nontrivial && equivocations > 0 && vstat.WantSample("byzantine") {
 		vstat.Sample("byzantine", map[string]any{"n": n, "node_variants": string(nodeVariant), "byzantine": byzList, "crashes": crashes, "published_roots": rs, "events": head(trace, 60)})
 	} else if nontrivial && vstat.WantSample("plain") {
